@@ -5,6 +5,7 @@ import Mathlib.Analysis.InnerProductSpace.Basic
 import Mathlib.Tactic.NormNum
 import Mathlib.Tactic.Linarith
 import HapModel.Model.PhenoSim
+import HapModel.Real.LdReal
 /-!
 Real-arithmetic property theorems (Mathlib), registered under the properties they serve.
 -/
@@ -148,5 +149,43 @@ theorem undefined_iff_constant {n : ℕ} (a : Fin n → ℝ) (m : ℝ) :
     linarith
   · intro h i _
     rw [h i]; simp
+
+/-! ### the executable integer statistic (`Model/LdStat.lean`) that the correspondence run compares with `calc_ld` -/
+open LdStat in
+/-- the reported value is undefined (`nan`) exactly when one of the two dosage vectors is constant -/
+theorem nan_iff_a_dosage_is_constant (a b : List Int) :
+    stat a b = none ↔ ((∀ x ∈ a, ∀ y ∈ a, x = y) ∨ (∀ x ∈ b, ∀ y ∈ b, x = y)) := by
+  rw [← den_eq_zero_iff a, ← den_eq_zero_iff b]
+  unfold stat
+  split <;> simp_all
+
+open LdStat in
+/-- every value `calc_ld` may print for a defined statistic is the Pearson correlation `R = num/√(da·db)` to three
+    decimals: `printsAs` (what the correspondence run evaluates) is exactly `|p/1000 − R| ≤ 1/2000 + tol/(2000K)` -/
+theorem printed_value_is_R_to_three_decimals (a b : List Int) (s : Stat) (h : stat a b = some s)
+    (tol K p : Int) (hK : 0 < K) :
+    printsAs tol K p s = true ↔ |(p : ℝ) / 1000 - s.R| ≤ 1 / 2000 + (tol : ℝ) / (2000 * (K : ℝ)) :=
+  printsAs_iff tol K p s hK (stat_den_pos a b s h)
+
+open LdStat in
+/-- `|R| ≤ 1` for every pair of dosage vectors over the same samples -/
+theorem R_abs_le_one (a b : List Int) (hl : a.length = b.length) (s : Stat) (h : stat a b = some s) : |s.R| ≤ 1 :=
+  stat_abs_le_one a b hl s h
+
+open LdStat in
+/-- the real number is the textbook one: covariance over the product of the standard deviations (all three scaled
+    by `n²`, which cancels) -/
+theorem R_is_pearson (a b : List Int) (s : Stat) (h : stat a b = some s) :
+    s.R = ((a.length : ℝ) * (dot a b : ℝ) - (a.sum : ℝ) * (b.sum : ℝ)) /
+      Real.sqrt ((((a.length : ℝ) * (dot a a : ℝ) - (a.sum : ℝ) * (a.sum : ℝ))) *
+                 (((b.length : ℝ) * (dot b b : ℝ) - (b.sum : ℝ) * (b.sum : ℝ)))) := by
+  unfold stat at h
+  split at h
+  · exact absurd h (by simp)
+  · have hs : s = ⟨num a b, den a, den b⟩ := by simpa using h.symm
+    subst hs
+    unfold Stat.R den num
+    push_cast
+    rfl
 
 end C16R
